@@ -152,7 +152,64 @@ def run(F):
                        "the scaling factor are treated as inliers and are no longer damped — the loss differs from sqrt(f^2 rho(r^2/f^2))")
             else:
                 r.inst(iid, t["span"], "ok")
+    # (b) the loss is applied to the relative differences themselves; averaging over the data points comes afterwards
+    #     (rho is non-linear: loss(r / N) is not loss(r) / N — the scaling factor of the robust loss would grow with N)
+    nb = 0
+    ARITH = ("div", "mul", "add", "sub", "neg", "mapv", "map", "mapv_inplace", "div_assign", "mul_assign", "powi", "sqrt", "abs")
+    for b in F.bodies:
+        if b.is_closure() or "estimator::" not in b.path or "::tests::" in b.path:
+            continue
+        apps = [(bi, t) for bi, t in b.calls() if str(callee(t)[2]) == "apply" and "loss::Loss" in str(callee(t)[0]) and len(t["args"]) == 2]
+        if not apps:
+            continue
+        defs = Defs(b)
+        for bi, t in apps:
+            nb += 1
+            fn = b.path.split("::")[-1]
+            iid = "lossorder|%s" % fn
+            # the array handed to `apply` (through `&mut`)
+            l = t["args"][1]["place"]["l"] if t["args"][1].get("k") in ("copy", "move") else None
+            arr = None
+            for _ in range(6):
+                ds = defs.of(l) if l is not None else []
+                if len(ds) == 1 and ds[0][0] == "stmt" and ds[0][4]["k"] == "ref":
+                    arr = l = ds[0][4]["place"]["l"]          # `&mut *&mut cost`: keep following reborrows
+                elif len(ds) == 1 and ds[0][0] == "stmt" and ds[0][4]["k"] == "use" and ds[0][4]["op"].get("k") in ("copy", "move") and arr is None:
+                    l = ds[0][4]["op"]["place"]["l"]
+                else:
+                    break
+            bad = None
+            if arr is None:
+                bad = "the argument of Loss::apply is not a mutable borrow of a local array"
+            else:
+                # what the array was computed from before the call: only the residual producer and `?` plumbing
+                work, seen = [arr], set()
+                while work and not bad:
+                    x = work.pop()
+                    if x in seen:
+                        continue
+                    seen.add(x)
+                    for d in defs.whole(x):
+                        if d[0] == "call":
+                            nm = str(callee(d[2])[2])
+                            if nm in ARITH:
+                                bad = "the array handed to Loss::apply has already been through `%s`" % nm
+                            elif nm in ("branch", "from_residual", "unwrap", "clone", "to_owned", "into", "from"):
+                                work += [a["place"]["l"] for a in d[2]["args"] if a.get("k") in ("copy", "move")]
+                        else:
+                            rv = d[4]
+                            if rv["k"] == "binop":
+                                bad = "the array handed to Loss::apply has already been through arithmetic"
+                            elif rv["k"] in ("use", "cast") and rv["op"].get("k") in ("copy", "move"):
+                                work.append(rv["op"]["place"]["l"])
+            if bad:
+                r.inst(iid, t["span"], "violation")
+                r.fail(iid, t["span"], "%s: %s — the loss has to see the relative differences themselves; the average over the data points is "
+                                       "taken of the loss values (rho is not linear)" % (fn, bad))
+            else:
+                r.inst(iid, t["span"], "ok")
     if "estimator" in (F.meta.get("features") or []) or "all_models" in (F.meta.get("features") or []):
+        r.floor("applications of the loss function to residuals", nb, 1)
         r.floor("branches in robust-loss closures", n, 1)
     r.exhaustive = True
     return [r]
